@@ -21,24 +21,31 @@
 //        Transition::new_fast(id list of the type, the given tours) under every listed type, leaves the other types alone and
 //        keeps `maintenance_violation == sum over all types` (rc_post; duplicates in the type list are harmless); improve_depots
 //        (Some) has the postcondition of update_transitions_and_violation_fast (upd_post, text of slices/sched_guard.vs).
-//   C02 / C10  depot limits: NOTHING is claimed.  reassign_end_depots_greedily documents "Capacties of depots are ignored";
-//        improve_depots asks find_best_start_depot_for_spawning (a stub here: result is a member of start_depot_nodes) with the
-//        partial table described above, end depots are chosen without looking at capacities.
+//   C02 / C10  depot limits: improve_depots_of_tour -- the new start depot node could spawn a vehicle of the type w.r.t. the GIVEN
+//        usage table (sp_can_spawn: the depot lists the type and has room per type and in total; best_start_depot: it is the
+//        nearest start depot node that can), from the contract under which slice depot_choice verifies
+//        find_best_start_depot_for_spawning.  improve_depots hands it the partial table described above; NOTHING is claimed about
+//        the depot limits w.r.t. the final table of improve_depots.  reassign_end_depots_greedily documents "Capacties of depots
+//        are ignored"; end depots are chosen without looking at capacities.
+//   C13  WHICH depot: improve_depots_of_tour / reassign_end_depots_greedily put the end depot node NEAREST to the end location of
+//        the last activity (nearest_end_depot / end_is_nearest: dead-head distance, ties: the one listed first), from the verified
+//        contracts of find_best_end_depot_for_despawning / Network::end_depots_sorted_by_distance_from (slices/depot_choice.vs).
+//   C06  `expect("There should be at least the overflow depot available.")` inside find_best_start_depot_for_spawning cannot panic
+//        under the preconditions some_depot_has_room (improve_depots_of_tour) / dp_room_ok (improve_depots), see PRECONDITIONS.
 //
 // ASSUMPTIONS introduced / used by this slice:
 //   A-stub   not verified in any slice, contract written from the body / doc comment:
 //            Transition::new_fast  (result = uninterpreted spec_new_fast(ids, tours, network); requires every listed id to have a
 //                 tour; NOTHING else is known about the rebuilt transition -- in particular NOT that it is consistent with the
 //                 tours (C15) or holds exactly the listed vehicles (C10));
-//            Tour::last_non_depot / Tour::first_non_depot  (is_last_non_depot / is_first_non_depot: the doc comment);
-//            Network::end_depots_sorted_by_distance_from  (same length and members as end_depot_nodes; order NOT specified);
-//            Schedule::find_best_start_depot_for_spawning  (text of slices/spawn_vehicle.vs: member of start_depot_nodes);
-//            Schedule::find_best_end_depot_for_despawning  (text of slices/spawn_vehicle.vs + NEW clause: Ok iff end_depot_nodes is
-//                 not empty -- needed for the `.unwrap()` in improve_depots_of_tour; verifying the 12-line body here would be cheap
-//                 but would make the weaker stub of slices/spawn_vehicle.vs differ from a verified contract)
+//            Tour::last_non_depot / Tour::first_non_depot  (is_last_non_depot / is_first_non_depot: the doc comment)
 //   A-iter   Schedule::vehicles_iter_all = sched_vehicles (uninterpreted order; text of slices/reassign.vs), VehicleTypes::iter =
 //            ids_sorted (text of slices/admission.vs); `for x in vec.iter()`: vstd's slice iterator
-//   R7a stubs (verified elsewhere with the SAME contract text; tools/stub_sync.py reports no difference): Schedule::tour_of,
+//   R7a stubs (verified elsewhere with the SAME contract text; tools/stub_sync.py reports no difference):
+//            Network::end_depots_sorted_by_distance_from, Schedule::find_best_start_depot_for_spawning,
+//            Schedule::find_best_end_depot_for_despawning (depot_choice; WITH their preconditions; the vocabulary of these contracts
+//            is COPIED from env/depot_choice_shim.vs into env/depot_ops_shim.vs: that file declares UsageMap / sp_spawned / ... again
+//            and expects env/admission_shim.vs' im_set, so it cannot be included), Schedule::tour_of,
 //            Schedule::update_depot_usage (depot_usage), Schedule::vehicle_type_of, Schedule::update_transitions_and_violation_fast
 //            (sched_guard), Tour::replace_start_depot, Tour::replace_end_depot (tour_mod), Tour::start_depot, Tour::end_depot
 //            (env/tour_accessors.vs); env/time_ops.vs, env/model_fns.vs, env/dist_ops.vs included trusted
@@ -50,7 +57,8 @@
 //   A-derive derived Clone of Tour and of TransitionCycle are structural (env/solution_types.vs is copied into this file instead of
 //            included, because the derive of Tour must be dropped to give `tour.clone()` a specification)
 //   A-index  depot_nodes_ok (precondition): network.end_depot_nodes / start_depot_nodes hold EndDepot / StartDepot nodes of the
-//            network (how Network::new fills them; not proved in slice network_new)
+//            network (how Network::new fills them; not proved in slice network_new); Network::start_depots_ok (precondition of
+//            improve_depots / improve_depots_of_tour): ... and the depots of the start depot nodes are in the network's depot table
 //   A-counter (magnitudes, stated as PRECONDITIONS over uninterpreted atoms, no caller can discharge them):
 //            rebuilt_small / rebuilt_all_small: the violation of a transition built by Transition::new_fast is in [0, 2^41 * number of
 //            listed vehicles]; dp_counter_ok: the maintenance counter of an improved tour is within +-2^40 (needed by tour_ok in the
@@ -73,11 +81,26 @@
 //     old-schedule clauses of upd_pre: C15 / C10 / C09 for the rotation cycles; real vehicles have Vehicle-kind ids, tours and a type
 //     with a transition);
 //   * improve_depots_of_tour: Network::wf, depot_nodes_ok, an end depot exists; the tour is a valid real tour of the network with
-//     exact caches.
+//     exact caches;
+//   * NEW (preconditions of find_best_start_depot_for_spawning, slices/depot_choice.vs, handed up; NOT part of dp_ok):
+//       - improve_depots_of_tour: Network::start_depots_ok (A-index); for the GIVEN usage table: usage_counts_small (magnitude: the
+//         count of the type and the total over the network's types at the depots of the start depot nodes fit u32) and
+//         some_depot_has_room (C06 / C17: SOME start depot node of the network can spawn the type; otherwise
+//         `expect("There should be at least the overflow depot available.")` panics);
+//       - improve_depots: Network::start_depots_ok and dp_room_ok(listed vehicles) -- usage_counts_small and some_depot_has_room for
+//         EVERY partial table the second loop can hand to improve_depots_of_tour (usage_partial + improve_progress: all listed
+//         vehicles taken out, the first k put back at their new depots).  It is quantified over the tables because which depots
+//         the earlier vehicles got depends on the distances; it cannot be derived from schedule validity: the overflow depot's
+//         total capacity is a computed number (slices/network_new.vs, C17, D5).  lemma_depot_without_type_limit_suffices: a start
+//         depot node whose depot lists the type without per-type limit (the overflow depot does) and where, according to the
+//         table, fewer vehicles start in total than its total capacity suffices for some_depot_has_room;
+//       - reassign_end_depots_greedily: nothing new (Network::wf, the location of the last activity, all_in_net(end_depot_nodes)
+//         were established already).
 //
 // NOT covered:
-//   * WHICH depot is chosen (nearest / available): only membership in the network's depot node lists; depot capacities (C02);
-//     the panic `expect("There should be at least the overflow depot available.")` inside find_best_start_depot_for_spawning;
+//   * improve_depots: WHICH start depot a listed vehicle gets is not stated at the level of improve_depots (the table consulted
+//     is internal: only depots_replaced -- members of the depot node lists); depot capacities (C02) w.r.t. the FINAL table;
+//     that the callers establish dp_room_ok (C17 is not connected to it);
 //   * what Transition::new_fast builds (C15 / C10 for the rebuilt transitions), see A-stub;
 //   * that the results satisfy dp_ok / rc_base / dp_transitions_ok again beyond what the postconditions state; error message texts;
 //   * improve_depots(Some(list)) with a vehicle listed twice: the first loop's second `.remove(vehicle_id).unwrap()` panics
@@ -248,16 +271,17 @@ impl Clone for TransitionCycle {
     requires all_in_net(&self.network, self.nodes@),
     ensures is_last_non_depot(self, r),
 //@end
-/// a sorted copy of `end_depot_nodes` (`let mut depots = self.end_depot_nodes.clone(); depots.sort_by_key(..); depots`):
-/// the same nodes; the order (by distance from the location) is NOT specified
+// verified in slice depot_choice; contract text copied from there (tools/stub_sync.py).  The clauses of the former A-stub
+// (same length, same members as end_depot_nodes) follow from the multiset equality: lemma_perm_members
 //@item model/src/network.rs Network::end_depots_sorted_by_distance_from : trusted
 //@retname r
 //@sig
     requires self.wf(), self.locations.has(location), all_in_net(self, self.end_depot_nodes@),
     ensures
-        r@.len() == self.end_depot_nodes@.len(),
-        forall|x: NodeIdx| #[trigger] r@.contains(x) <==> self.end_depot_nodes@.contains(x),
-        forall|i: int| 0 <= i < r@.len() ==> self.end_depot_nodes@.contains(#[trigger] r@[i]),
+        r@.to_multiset() == self.end_depot_nodes@.to_multiset(), // @obl C13.end_depots_sorted.rearrangement_of_end_depot_nodes
+        // ... in ascending order of the dead-head distance from the location to the node; equally distant nodes in list order
+        self.sorted_from(r@, location), // @obl C13.end_depots_sorted.ascending_distance_from_location
+        self.ties_from(r@, location), // @obl C13.end_depots_sorted.ties_in_list_order
 //@end
 /// A-stub: Transition::new_fast (= Transition::one_cluster_per_maintenance) is NOT under contract anywhere: the result is
 /// an uninterpreted function of the arguments.  Precondition from the body (`tours.get(vehicle_id).unwrap()`)
@@ -387,6 +411,9 @@ impl Clone for TransitionCycle {
         // C13 "depot-only operations change no activity": every vehicle keeps its start depot and all its activities in
         // order; its end depot node is a member of the network's end depot node list; the tour is valid with exact caches
         r is Ok ==> forall|v: VehicleIdx| #[trigger] self.tours@.contains_key(v) ==> self.end_reassigned(v, r->Ok_0.tours@[v]), // @obl C13.reassign_end_depots_greedily.no_activity_changes
+        // C13 "Reassigns the end depots of all vehicles greedily.  Capacties of depots are ignored.": every vehicle's new end depot
+        // node is the end depot node nearest to the end location of its last activity (ties: the one listed first)
+        r is Ok ==> forall|v: VehicleIdx| #[trigger] self.tours@.contains_key(v) ==> self.end_is_nearest(v, r->Ok_0.tours@[v]), // @obl C13.reassign_end_depots_greedily.nearest_end_depot_capacities_ignored
         // C13 "... all other vehicles' tours, formations elsewhere and the input schedule itself stay untouched"
         r is Ok ==> r->Ok_0.tours@.dom() == self.tours@.dom()
             && r->Ok_0.dummy_tours@ == self.dummy_tours@ && r->Ok_0.vehicles@ == self.vehicles@ && r->Ok_0.train_formations@ == self.train_formations@
@@ -408,6 +435,7 @@ impl Clone for TransitionCycle {
                 it.index@ > 0 ==> self.network.end_depot_nodes@.len() > 0,
                 tours@.dom() == self.tours@.dom(),
                 forall|j: int| 0 <= j < it.index@ ==> self.end_reassigned(#[trigger] it.snapshot@@[j], tours@[it.snapshot@@[j]]), // @obl C13.reassign_end_depots_greedily.no_activity_changes
+                forall|j: int| 0 <= j < it.index@ ==> self.end_is_nearest(#[trigger] it.snapshot@@[j], tours@[it.snapshot@@[j]]), // @obl C13.reassign_end_depots_greedily.nearest_end_depot_capacities_ignored
                 forall|j: int| it.index@ <= j < it.snapshot@@.len() ==> tours@[#[trigger] it.snapshot@@[j]] == self.tours@[it.snapshot@@[j]], // @obl C13.reassign_end_depots_greedily.no_activity_changes
                 costs == self.costs - pre_costs(self.tours@, it.snapshot@@, it.index@ as int) + pre_costs(tours@, it.snapshot@@, it.index@ as int), // @obl C09.reassign_end_depots_greedily.costs_follow_tours
                 costs <= self.costs + it.index@ * leg_cost_bound(),
@@ -434,9 +462,16 @@ impl Clone for TransitionCycle {
                 // the last activity of the tour is a node of the network; its location is a location of the network
                 lemma_node_facts(&self.network, tour.nodes@[tour.len() - 2]);
                 assert forall|i: int| 0 <= i < self.network.end_depot_nodes@.len() implies self.network.has(#[trigger] self.network.end_depot_nodes@[i]) by {}
+                // whatever list of the end depot nodes in ascending distance is asked for its first item: same length as the list of
+                // end depot nodes, and the first item is the nearest end depot node (in particular one of them)
+                assert forall|s: Seq<NodeIdx>| s.to_multiset() == self.network.end_depot_nodes@.to_multiset() && #[trigger] self.network.sorted_from(s, last_node_location) && self.network.ties_from(s, last_node_location)
+                    implies s.len() == self.network.end_depot_nodes@.len() && (s.len() > 0 ==> self.network.nearest_end_depot(s[0], last_node_location)) by {
+                    lemma_first_is_nearest(&self.network, s, last_node_location); // @obl C13.reassign_end_depots_greedily.nearest_end_depot_capacities_ignored
+                }
             }
 //@before "let new_tour"
             proof {
+                assert(self.network.nearest_end_depot(new_end_depot_node, last_node_location)); // @obl C13.reassign_end_depots_greedily.nearest_end_depot_capacities_ignored
                 assert(self.network.end_depot_nodes@.contains(new_end_depot_node));
                 let i = choose|i: int| 0 <= i < self.network.end_depot_nodes@.len() && self.network.end_depot_nodes@[i] == new_end_depot_node;
                 assert(self.network.has(self.network.end_depot_nodes@[i]) && self.network.sp_node(self.network.end_depot_nodes@[i]) is EndDepot);
@@ -467,6 +502,9 @@ impl Clone for TransitionCycle {
                 assert forall|j: int| 0 <= j < k + 1 implies self.end_reassigned(#[trigger] vs[j], tours@[vs[j]]) by { // @obl C13.reassign_end_depots_greedily.no_activity_changes
                     if j < k { assert(vs[j] != vs[k]); }
                 }
+                assert forall|j: int| 0 <= j < k + 1 implies self.end_is_nearest(#[trigger] vs[j], tours@[vs[j]]) by { // @obl C13.reassign_end_depots_greedily.nearest_end_depot_capacities_ignored
+                    if j < k { assert(vs[j] != vs[k]); }
+                }
                 assert forall|j: int| k + 1 <= j < vs.len() implies tours@[#[trigger] vs[j]] == self.tours@[vs[j]] by { // @obl C13.reassign_end_depots_greedily.no_activity_changes
                     assert(vs[j] != vs[k]);
                 }
@@ -479,6 +517,11 @@ impl Clone for TransitionCycle {
                 assert(vs.contains(v));
                 let j = choose|j: int| 0 <= j < vs.len() && vs[j] == v;
                 assert(self.end_reassigned(vs[j], tours@[vs[j]]));
+            }
+            assert forall|v: VehicleIdx| #[trigger] self.tours@.contains_key(v) implies self.end_is_nearest(v, tours@[v]) by {
+                assert(vs.contains(v));
+                let j = choose|j: int| 0 <= j < vs.len() && vs[j] == v;
+                assert(self.end_is_nearest(vs[j], tours@[vs[j]]));
             }
             // the new tours have the keys of the old ones: every listed id still has a tour
             lemma_rc_base_same_keys(self, self.tours@, tours@, sched_types(self));
@@ -539,24 +582,58 @@ impl Clone for TransitionCycle {
         r is Ok ==> r->Ok_0.wf(), // @obl C01.replace_start_depot.wf
         r is Ok ==> r->Ok_0.caches_ok(), // @obl C09.replace_start_depot.caches
 //@end
-// A-stub (text as in slices/spawn_vehicle.vs: not verified in any slice; contract written from the body: the first depot of
-// `network.start_depots_sorted_by_distance_to(..)` -- a sorted copy of `start_depot_nodes` -- that can spawn the vehicle
-// according to the GIVEN usage table).  The `expect("There should be at least the overflow depot available.")` inside
-// is NOT covered.
+// verified in slice depot_choice; contract text copied from there (tools/stub_sync.py): the nearest start depot node that can
+// spawn the vehicle according to the GIVEN usage table; `expect("There should be at least the overflow depot available.")`
+// cannot panic under the precondition some_depot_has_room
 //@item solution/src/schedule/modifications.rs Schedule::find_best_start_depot_for_spawning : trusted
 //@retname r
 //@sig
-    ensures self.network.start_depot_nodes@.contains(r),
+    requires
+        // instance validity; `self.network.node(first_node)`
+        self.network.wf(), self.network.has(first_node),
+        // A-index: the start depot node list holds start depot nodes of the network with a depot of the depot table
+        self.network.start_depots_ok(),
+        // magnitude: the counts of the given table fit u32
+        self.usage_counts_small(vehicle_type_idx, depot_usage@),
+        // C06 "it neither panics ...": `.expect("There should be at least the overflow depot available.")` -- the weakest
+        // precondition under which `find` returns Some: SOME start depot node of the network (e.g. the overflow depot's) can
+        // spawn a vehicle of the type w.r.t. the given table
+        self.some_depot_has_room(vehicle_type_idx, depot_usage@), // @obl C06.find_best_start_depot.expect_needs_a_depot_with_room
+    ensures
+        // a start depot node of the network ...
+        self.network.start_depot_nodes@.contains(r), // @obl C02.find_best_start_depot.chosen_depot_has_room
+        // ... C02 "the number of vehicles starting there stays within the depot's total capacity and within the per-type capacity
+        // (types not listed for a depot never start there)": can_depot_spawn_vehicle_custom_usage(r, type, GIVEN table) holds
+        self.sp_can_spawn(r, vehicle_type_idx, depot_usage@), // @obl C02.find_best_start_depot.chosen_depot_has_room
+        // the FIRST such depot in the distance order: no start depot node with room is nearer to the start location of first_node ...
+        forall|d: NodeIdx| self.network.start_depot_nodes@.contains(d) && #[trigger] self.sp_can_spawn(d, vehicle_type_idx, depot_usage@)
+            ==> dist_le(self.network.dist_to(r, self.network.sp_node(first_node).sp_start_location()),
+                        self.network.dist_to(d, self.network.sp_node(first_node).sp_start_location())), // @obl C02.find_best_start_depot.nearest_depot_with_room
+        // ... and of the equally near ones with room it is the one listed first
+        forall|d: NodeIdx| self.network.start_depot_nodes@.contains(d) && #[trigger] self.sp_can_spawn(d, vehicle_type_idx, depot_usage@) && d != r
+            && self.network.dist_to(d, self.network.sp_node(first_node).sp_start_location()) == self.network.dist_to(r, self.network.sp_node(first_node).sp_start_location())
+            ==> listed_before(self.network.start_depot_nodes@, r, d), // @obl C02.find_best_start_depot.nearest_depot_with_room
 //@end
-// A-stub (first clause: text as in slices/spawn_vehicle.vs; second clause NEW, written from the body: `first()` of
-// `network.end_depots_sorted_by_distance_from(..)` -- a sorted copy of `end_depot_nodes` -- is Some iff that list is
-// not empty).  Depot capacities play no role in it.
+// verified in slice depot_choice; contract text copied from there (tools/stub_sync.py): the nearest end depot node; depot
+// capacities play no role in it
 //@item solution/src/schedule/modifications.rs Schedule::find_best_end_depot_for_despawning : trusted
 //@retname r
 //@sig
+    requires
+        // instance validity; `self.network.node(last_node)`; A-index: the end depot node list holds nodes of the network
+        self.network.wf(), self.network.has(last_node), all_in_net(&self.network, self.network.end_depot_nodes@),
     ensures
-        r is Ok ==> self.network.end_depot_nodes@.contains(r->Ok_0),
-        r is Ok <==> self.network.end_depot_nodes@.len() > 0,
+        r is Ok ==> self.network.end_depot_nodes@.contains(r->Ok_0), // @obl C13.find_best_end_depot.member_of_end_depot_nodes
+        // C06: no panic; refused iff the network has no end depot node
+        r is Ok <==> self.network.end_depot_nodes@.len() > 0, // @obl C06.find_best_end_depot.ok_iff_an_end_depot_exists
+        // the nearest end depot node, whatever its capacity or balance: none is nearer to the end location of last_node ...
+        r is Ok ==> forall|d: NodeIdx| #[trigger] self.network.end_depot_nodes@.contains(d)
+            ==> dist_le(self.network.dist_from(self.network.sp_node(last_node).sp_end_location(), r->Ok_0),
+                        self.network.dist_from(self.network.sp_node(last_node).sp_end_location(), d)), // @obl C13.find_best_end_depot.nearest_end_depot_capacities_ignored
+        // ... and of the equally near ones it is the one listed first
+        r is Ok ==> forall|d: NodeIdx| #[trigger] self.network.end_depot_nodes@.contains(d) && d != r->Ok_0
+            && self.network.dist_from(self.network.sp_node(last_node).sp_end_location(), d) == self.network.dist_from(self.network.sp_node(last_node).sp_end_location(), r->Ok_0)
+            ==> listed_before(self.network.end_depot_nodes@, r->Ok_0, d), // @obl C13.find_best_end_depot.nearest_end_depot_capacities_ignored
 //@end
 // A-stub (= `self.all_non_depot_nodes_iter().next()`): the first node of the tour that is no depot
 //@item solution/src/tour.rs Tour::first_non_depot : trusted
@@ -575,15 +652,32 @@ impl Clone for TransitionCycle {
         // the tour is a valid real tour of the schedule's network with exact caches (`first_non_depot().unwrap()`,
         // `start_depot().unwrap()`, `replace_start_depot(..).unwrap()`, ...)
         tour.wf(), !tour.is_dummy, *tour.network == *self.network, tour.caches_ok(), tour_len_ok(tour.nodes@),
+        // what find_best_start_depot_for_spawning requires (slices/depot_choice.vs) beyond the above:
+        // A-index (how Network::new fills the list; not proved in slice network_new): the depots of the start depot nodes are in the
+        // network's depot table (that they are StartDepot nodes of the network is part of depot_nodes_ok)
+        self.network.start_depots_ok(),
+        // magnitude: the counts of the GIVEN usage table fit u32 (vehicle ids are 16 bit)
+        self.usage_counts_small(vehicle_type_idx, depot_usage@),
+        // C06 / C17: some start depot node of the network has room for the type w.r.t. the GIVEN usage table ("There should be at
+        // least the overflow depot available."; that the overflow depot's capacity suffices is C17, slices/network_new.vs, D5;
+        // see lemma_depot_without_type_limit_suffices).  Otherwise `expect` panics.
+        self.some_depot_has_room(vehicle_type_idx, depot_usage@), // @obl C06.improve_depots_of_tour.expect_needs_a_depot_with_room
     ensures
         // C13 "depot-only operations change no activity": only the start and / or the end depot node may differ
         depots_replaced(&self.network, tour, &r), // @obl C13.improve_depots_of_tour.no_activity_changes
         same_activities(tour, &r), // @obl C13.improve_depots_of_tour.no_activity_changes
+        // C02 "the number of vehicles starting there stays within the depot's total capacity and within the per-type capacity (types
+        // not listed for a depot never start there)": the new start depot node could spawn a vehicle of the type w.r.t. the GIVEN
+        // usage table (sp_can_spawn), and it is the nearest start depot node that can (dead-head distance from the depot to the
+        // start location of the first activity; ties: the one listed first)
+        self.best_start_depot(sp_start_depot(&r), vehicle_type_idx, self.network.sp_node(tour.nodes@[1]).sp_start_location(), depot_usage@), // @obl C02.improve_depots_of_tour.start_depot_had_room
+        // C13: the new end depot node is the end depot node nearest to the end location of the last activity (capacities ignored)
+        self.network.nearest_end_depot(sp_end_depot(&r), self.network.sp_node(tour.nodes@[tour.nodes@.len() - 2]).sp_end_location()), // @obl C13.improve_depots_of_tour.nearest_end_depot_capacities_ignored
         // C09 (magnitude): only the first and the last leg change, so the costs change by at most two legs' costs
         -2 * leg_cost_bound() <= r.costs - tour.costs <= 2 * leg_cost_bound(), // @obl C09.improve_depots_of_tour.costs_change_by_two_legs_at_most
 //@first
         proof {
-            assert forall|q: Option<NodeIdx>| is_first_non_depot(tour, q) implies q == Some(tour.nodes@[1]) by { lemma_first_non_depot(tour, q); }
+            assert forall|q: Option<NodeIdx>| is_first_non_depot(tour, q) implies q == Some(tour.nodes@[1]) && self.network.has(tour.nodes@[1]) by { lemma_first_non_depot(tour, q); }
         }
 //@before "let intermediate_tour"
         proof {
@@ -596,7 +690,14 @@ impl Clone for TransitionCycle {
         proof {
             assert(it0.nodes@ =~= tour.nodes@.update(0, sp_start_depot(&it0)));
             if new_start_depot != sp_start_depot(tour) { lemma_start_depot_costs(tour, &it0, new_start_depot); }
-            assert forall|q: Option<NodeIdx>| is_last_non_depot(&it0, q) implies q == Some(it0.nodes@[it0.len() - 2]) by { lemma_last_non_depot(&it0, q); }
+            assert forall|q: Option<NodeIdx>| is_last_non_depot(&it0, q) implies q == Some(it0.nodes@[it0.len() - 2]) && self.network.has(it0.nodes@[it0.len() - 2]) by { lemma_last_non_depot(&it0, q); }
+            // find_best_end_depot_for_despawning: the end depot node list holds nodes of the network
+            assert(all_in_net(&self.network, self.network.end_depot_nodes@)) by {
+                assert forall|i: int| 0 <= i < self.network.end_depot_nodes@.len() implies self.network.has(#[trigger] self.network.end_depot_nodes@[i]) by {}
+            }
+            // the last activity is not touched by the replacement of the start depot
+            lemma_tour_kinds(tour, 1);
+            assert(it0.nodes@[it0.len() - 2] == tour.nodes@[tour.nodes@.len() - 2]);
         }
 //@after "let new_end_depot"
         proof {
@@ -679,6 +780,16 @@ impl Clone for TransitionCycle {
         self.dp_ok(),
         // the network has an end depot (`find_best_end_depot_for_despawning(..).unwrap()` in improve_depots_of_tour)
         self.network.end_depot_nodes@.len() > 0,
+        // what find_best_start_depot_for_spawning (in improve_depots_of_tour; slices/depot_choice.vs) requires beyond dp_ok:
+        // A-index (how Network::new fills the list; not proved in slice network_new): the depots of the start depot nodes are in the
+        // network's depot table
+        self.network.start_depots_ok(),
+        // C06 / C17 and magnitude: whenever a start depot is chosen for a listed vehicle -- with the PARTIAL usage table: all listed
+        // vehicles taken out, the ones processed so far put back at their new depots -- some start depot node of the network has
+        // room for the vehicle's type w.r.t. that table ("There should be at least the overflow depot available."; `expect`
+        // panics otherwise; that the overflow depot's capacity suffices is C17, slices/network_new.vs, D5) and the table's counts
+        // fit u32 (see dp_room_ok, env/depot_ops_shim.vs)
+        self.dp_room_ok(if vehicles is Some { vehicles->Some_0@ } else { sched_vehicles(self) }), // @obl C06.improve_depots.expect_needs_a_depot_with_room
         // Some(list): the listed vehicles are vehicles of the schedule, none is listed twice; what the incremental update of
         // the rotation cycles needs (dp_transitions_ok; A-counter: dp_counter_ok)
         vehicles is Some ==> self.listed_ok(vehicles->Some_0@) && self.dp_transitions_ok(vehicles->Some_0@.len() as int)
@@ -758,6 +869,7 @@ impl Clone for TransitionCycle {
             invariant
                 self.dp_ok(), self.listed_ok(ids), ids == vehicle_ids@,
                 self.network.end_depot_nodes@.len() > 0,
+                self.network.start_depots_ok(), self.dp_room_ok(ids),
                 pre_costs(self.tours@, ids, ids.len() as int) <= self.costs,
                 it.snapshot@.remaining().len() == ids.len(),
                 forall|j: int| 0 <= j < ids.len() ==> *(#[trigger] it.snapshot@.remaining()[j]) == ids[j],
@@ -779,6 +891,13 @@ impl Clone for TransitionCycle {
                 lemma_pre_costs_mono(self.tours@, ids, k + 1, ids.len() as int);
                 lemma_pre_costs_mono(self.tours@, ids, 0, k);
                 lemma_pre_costs_mono(tours@, ids, 0, k);
+            }
+//@before "let new_tour"
+            proof {
+                // C06: the table handed to improve_depots_of_tour is one of those dp_room_ok speaks about
+                assert(self.improve_progress(tours@, ids, k));
+                assert(self.usage_partial(depot_usage@, tours@, ids, k));
+                assert(vehicle_type_id == self.type_of(ids[k]));
             }
 //@before "costs ="
             let ghost nt = new_tour;
